@@ -619,6 +619,14 @@ pub fn c06_check(ctx: &Ctx, st: &mut Local, eng: &str, idx: u64, c: &FileCase) {
             return;
         }
     };
+    if std::env::var("PFV_DEBUG").is_ok() {
+        let d: Vec<String> = chunks.iter().map(|ch| match ch {
+            Chunk::Literal(b) => format!("L{}", b.len()),
+            Chunk::Deflate { plain, corr } => format!("D(plain {}, corr {})", plain.len(), corr.len()),
+            Chunk::Png { sizes, plain, corr } => format!("P(sizes {:?}, plain {}, corr {})", sizes, plain.len(), corr.len()),
+        }).collect();
+        eprintln!("DEBUG chunks of {} ({} bytes; embedded at {:?}): {:?}", c.descr, c.bytes.len(), c.embedded.iter().map(|e| (e.start, e.end)).collect::<Vec<_>>(), d);
+    }
     let mut judged = 0;
     for (k, emb) in c.embedded.iter().enumerate() {
         if !emb.supported {
@@ -638,9 +646,10 @@ pub fn c06_check(ctx: &Ctx, st: &mut Local, eng: &str, idx: u64, c: &FileCase) {
         }
         // precondition 2: no signature look-alike before this wrapper starts an acceptable stream
         // (over-approximated: any offset within 400 bytes after such a look-alike)
-        // (the bytes of the previous wrapper were consumed by its own detection; its trailer is
-        // included in the scan to stay on the safe side)
-        let lo = if k == 0 { 0 } else { c.embedded[k - 1].end.saturating_sub(24).max(c.embedded[k - 1].start + 2) };
+        // everything in front of this wrapper counts as "preceding bytes", including an earlier wrapper
+        // (whose own detection may fail, e.g. an IDAT run below the size threshold, so that a garbled
+        // probe inside it can run on into this wrapper)
+        let lo = 0;
         let mut clean = true;
         let first_lookalike = (lo..emb.start).find(|&p| p + 1 < c.bytes.len() && SIGS.iter().any(|sg| c.bytes[p] == sg[0] && c.bytes[p + 1] == sg[1]));
         if let Some(p0) = first_lookalike {
